@@ -32,6 +32,7 @@ type retained struct {
 
 type msgSnap struct {
 	ID, Ser, Sum, No uint16
+	ReplyID          uint16
 	Phone            string
 	Body, TData      []byte
 	PData            []byte
@@ -43,6 +44,7 @@ func snapOf(m *service.Message) msgSnap {
 	if m.JTMessage != nil && m.JTMessage.Header != nil {
 		h := m.JTMessage.Header
 		s.ID, s.Ser, s.Sum, s.No, s.Phone = h.ID, h.SerialNumber, h.SubPackageSum, h.SubPackageNo, h.TerminalPhoneNo
+		s.ReplyID = h.ReplyID
 		s.Body = bytes.Clone(m.JTMessage.Body)
 	}
 	s.TData = bytes.Clone(m.ExtensionFields.TerminalData)
